@@ -278,6 +278,16 @@ class _PredId:
         return self._v()
 
 
+STEP_DEADLINE = 20.0     # seconds one scheduled action may take (they take microseconds)
+
+
+class SchedHang(Exception):
+    """A scheduled call of a tracer method did not return: a thread (or the main thread's stop()) is blocked."""
+    def __init__(self, action, index):
+        super().__init__(f"action {index} {action} did not return within {STEP_DEADLINE} s")
+        self.action, self.index = action, index
+
+
 def run_schedule(n, acts, imp):
     from pynguin.instrumentation.tracer import ExecutionTracer, InstrumentationExecutionTracer
     from pynguin.utils.exceptions import TracingAbortedException
@@ -294,9 +304,14 @@ def run_schedule(n, acts, imp):
         w.start()
     raised, results = [], {}
     try:
-        for a in acts:
+        for idx, a in enumerate(acts):
             if a[0] == "Stop":
-                tracer.stop()
+                # the main thread's stop() must return whatever the other threads are doing
+                th = threading.Thread(target=tracer.stop, daemon=True)
+                th.start()
+                th.join(STEP_DEADLINE)
+                if th.is_alive():
+                    raise SchedHang(a, idx)
                 raised.append(False)
             elif a[0] == "Harvest":
                 t = a[1]
@@ -306,7 +321,10 @@ def run_schedule(n, acts, imp):
             else:
                 w = workers[a[1]]
                 w.q.put(a)
-                st, val = w.ack.get(timeout=60)
+                try:
+                    st, val = w.ack.get(timeout=STEP_DEADLINE)
+                except queue.Empty:
+                    raise SchedHang(a, idx) from None
                 if st == "error":
                     raise RuntimeError(f"action {a} failed in the worker thread: {val}")
                 raised.append(bool(val))
@@ -376,13 +394,16 @@ def oracle_schedule(n, acts, imp, o):
 
 # ------------------------------------------------------------------------------------------------
 # real executor sessions
-def run_session(seed, n, base: Path, attempt=0):
-    d = base / f"s{seed}-{attempt}"
+def run_session(seed, n, base: Path, deadline=300):
+    """One executor session in a process group of its own; a session that has not returned after `deadline`
+    seconds (healthy ones take 25-80 s) is killed and reported: execute() hangs."""
+    d = base / f"s{seed}"
     # unequal limits (maximum 2 s, 1 s per statement) so that the two join timeouts can be told apart; every
-    # session starts with a test that is abandoned inside a sleeping __eq__ (predicate callback)
+    # session starts with a test that is abandoned after logging.disable (no older abandoned thread exists that
+    # could reset the level by accident), then one that is abandoned inside a sleeping __eq__ (predicate callback)
     sc = {"dir": str(d), "seed": seed, "n": n, "max_timeout": 2, "per_stmt": 1,
-          "first": ["spin_eq", "quick1", "other_short", "busy"]}
-    wd = (180 + 10 * n) * (1 + attempt)
+          "first": ["mute_block", "logcheck", "spin_eq", "quick1", "other_short", "busy", "logcheck"]}
+    wd = deadline
     p = subprocess.Popen([sys.executable, str(Path(__file__).with_name("_c32_exec.py")), json.dumps(sc)],
                          stdout=subprocess.PIPE, stderr=subprocess.PIPE, text=True, env=vlib.impl_env(),
                          start_new_session=True)
@@ -395,6 +416,11 @@ def run_session(seed, n, base: Path, attempt=0):
             pass
         p.communicate()
         return None, f"no return within {wd} s"
+    finally:
+        try:
+            os.killpg(p.pid, signal.SIGKILL)
+        except (ProcessLookupError, PermissionError):
+            pass
     for ln in out.splitlines():
         if ln.startswith("RESULT "):
             return json.loads(ln[7:]), ""
@@ -474,10 +500,14 @@ def run(ctx: vlib.Ctx):
     seeds = list(corpus["session_seeds"]) + [ctx.rng.randrange(10 ** 6) for _ in range(2 if ctx.quick else 14)]
     n_exec = 14 if ctx.quick else 36
     pool = cf.ThreadPoolExecutor(max_workers=4 if ctx.quick else 8)
-    futs = [(sd, pool.submit(run_session, sd, n_exec, base)) for sd in seeds]
+    futs = [(sd, pool.submit(run_session, sd, n_exec, base, 300 if ctx.quick else 600)) for sd in seeds]
 
     # --- K2: scheduled real threads ---------------------------------------------------------------
-    guard = detect_guard()
+    try:
+        guard = detect_guard()
+    except SchedHang as h:
+        guard = False
+        ctx.log(f"scheduler: {h} while probing the __exit__ variant")
     ctx.notes.append(f"ExecutionTracer.__exit__ variant detected: {'guarded (stops only its own thread)' if guard else 'unconditional stop()'}")
     scheds = [(c["n"], [tuple(a) for a in c["sched"]], c["imp"]) for c in corpus["schedules"]]
     scheds.append((WAKE[0], WAKE[1], [7]))
@@ -488,7 +518,16 @@ def run(ctx: vlib.Ctx):
         scheds.append((n, acts, imp))
     cases, obs, n_or = [], [], 0
     for n, acts, imp in scheds:
-        o = run_schedule(n, acts, imp)
+        try:
+            o = run_schedule(n, acts, imp)
+        except SchedHang as h:
+            n_or += 1
+            ctx.log(f"scheduler: {h}; the scheduler leg is aborted")
+            ctx.fail(f"sched:hang:{h.action[0]}", f"in a scheduled run on the real tracer, {h} (a call that must not block: an "
+                     "abandoned thread inside a callback, or the main thread's stop(), waits for another thread)",
+                     {"kind": "schedule", "n": n, "sched": [list(a) for a in acts[:h.index + 1]], "imp": imp})
+            scheds = scheds[:len(obs)]
+            break
         obs.append(o)
         cases.append(c_case(guard, imp, acts, o))
         n_abort = sum(o["raised"])
@@ -501,9 +540,10 @@ def run(ctx: vlib.Ctx):
         if r:
             n_or += 1
             ctx.fail("sched:" + r[0], r[1], {"kind": "schedule", "n": n, "sched": [list(a) for a in acts], "imp": imp, "observed": o})
-    wake = obs[len(corpus["schedules"])]
-    ctx.sample({"schedule": [list(a) for a in WAKE[1]], "observed": wake})
-    ctx.cov["later_test_aborted_by_foreign_exit_in_scheduler"] = bool(wake["raised"][10])
+    if len(obs) > len(corpus["schedules"]):
+        wake = obs[len(corpus["schedules"])]
+        ctx.sample({"schedule": [list(a) for a in WAKE[1]], "observed": wake})
+        ctx.cov["later_test_aborted_by_foreign_exit_in_scheduler"] = bool(wake["raised"][10])
     bad = ctx.run_cases("C32_sched", "From Verif Require Import Models.C32.", "C32.case", "C32.check_case", cases)
     if bad:
         ctx.leg("K2", ok=False, mismatches=len(bad))
@@ -521,14 +561,11 @@ def run(ctx: vlib.Ctx):
     for sd, fut in futs:
         log, note = fut.result()
         if log is None and note.startswith("no return"):
-            ctx.log(f"session {sd}: {note}; retrying once with a longer watchdog")
-            log, note2 = run_session(sd, n_exec, base, attempt=1)
-            if log is None and note2.startswith("no return"):
-                n_fail += 1
-                ctx.fail("timeout:executor-hangs", f"executor session did not return ({note}; {note2})",
-                         {"kind": "session", "seed": sd, "n": n_exec})
-                continue
-            note = note2
+            n_fail += 1
+            ctx.log(f"session {sd}: {note}: HANG")
+            ctx.fail("timeout:executor-hangs", f"executor session did not return ({note}; healthy sessions take 25-80 s)",
+                     {"kind": "session", "seed": sd, "n": n_exec})
+            continue
         if log is None:
             ctx.broken(f"driver:session-{sd}", "the executor session driver failed", {"seed": sd, "detail": note})
             continue
